@@ -1,7 +1,7 @@
 (* Props/C17.v — property C17: transcoded input is searched as its UTF-8 equivalent.  PARTIAL: the third-party
    transcoder (encoding_rs, encoding_rs_io) is modelled, not verified; see notes/C17.md.
    Only statements; proofs are one `exact`/`apply` or a vm_compute witness. *)
-From RG Require Import Base.Bytes Model.Decode Proofs.DecodeProofs.
+From RG Require Import Base.Bytes Model.Decode Spec.Utf16Spec Proofs.DecodeProofs Proofs.Utf16SpecProofs.
 
 (* 1. which decoder the searcher's reader ends up with, for the settings SearcherBuilder::build makes and the
       three --encoding modes: stated for the code as it is *)
@@ -59,6 +59,45 @@ Theorem utf16_refragment :
 Proof. exact utf16_refragment_proof. Qed.
 Print Assumptions utf16_refragment.
 
+(* 3b. the decoder against the declarative specification Spec/Utf16Spec.v (bytes -> code units -> scalar values:
+       BMP unit; high+low pair; lone surrogate, dangling byte => U+FFFD; leading U+FEFF dropped -> UTF-8), for every
+       input, and composed with 3 for every fragmentation *)
+Theorem utf16_decoder_eq_spec :
+  forall (be : bool) (s : bytes), utf16_to_utf8 be s = utf16_spec be s.
+Proof. exact utf16_decoder_eq_spec_proof. Qed.
+Print Assumptions utf16_decoder_eq_spec.
+
+Theorem utf16_stream_eq_spec :
+  forall (be : bool) (chunks : list bytes), u16_stream be u16_init chunks = utf16_spec be (concat chunks).
+Proof. exact utf16_stream_eq_spec_proof. Qed.
+Print Assumptions utf16_stream_eq_spec.
+
+(* 3c. so what the line searcher is given for UTF-16 input IS its UTF-8 equivalent: an input starting with a
+       UTF-16 mark (any label, any mode but none), or labelled UTF-16 without any mark.  (utf16_spec drops a U+FEFF
+       that follows the mark: known finding SecondMarkRemoved.) *)
+Theorem searched_utf16_marked :
+  forall (m : encoding_mode) (s : bytes),
+    m <> EncDisabled -> length s >= 3 ->
+    (starts2 255 254 s = true -> searched_bytes m s = Some (utf16_spec false (skipn 2 s))) /\
+    (starts2 254 255 s = true -> searched_bytes m s = Some (utf16_spec true (skipn 2 s))).
+Proof. exact searched_utf16_marked_proof. Qed.
+Print Assumptions searched_utf16_marked.
+
+Theorem searched_utf16_label :
+  forall (be : bool) (s : bytes),
+    for_bom s = None ->
+    searched_bytes (EncSome (if be then Utf16be else Utf16le)) s = Some (utf16_spec be s).
+Proof. exact searched_utf16_label_proof. Qed.
+Print Assumptions searched_utf16_label.
+
+(* 3d. the UTF-8 decoder of -E utf-8 (validation, U+FFFD per maximal ill-formed subpart, mark removal; compared
+       with encoding_rs on every run) is fragmentation independent too; its equality with a declarative
+       well-formedness specification is NOT proved *)
+Theorem utf8_chunk_independent :
+  forall chunks : list bytes, u8_stream u8_init chunks = utf8_to_utf8 (concat chunks).
+Proof. exact utf8_chunk_independent_proof. Qed.
+Print Assumptions utf8_chunk_independent.
+
 (* 4. --encoding none: the raw bytes, mark included, and never the reader detour *)
 Theorem none_is_identity :
   forall s : bytes,
@@ -78,6 +117,15 @@ Print Assumptions routing_sound.
 Example decoder_example :
   u16_stream true u16_init [[216%N]; [61; 222]%N; [0%N]; [220; 0; 97]%N]
   = [240; 159; 152; 128; 239; 191; 189; 239; 191; 189]%N.
+Proof. vm_compute. reflexivity. Qed.
+
+Example spec_example :      (* BE: U+1F600, lone low surrogate, 'a', dangling byte *)
+  utf16_scalars true [216; 61; 222; 0; 220; 0; 0; 97; 5]%N = [128512; 65533; 97; 65533]%N.
+Proof. vm_compute. reflexivity. Qed.
+
+Example utf8_decoder_example :      (* overlong C0 AF, surrogate ED A0 80, truncated F0 9F 98, then 'a' split over chunks *)
+  u8_stream u8_init [[192%N]; [175; 237]%N; [160; 128; 240; 159]%N; [152; 97]%N]
+  = (replacement ++ replacement) ++ (replacement ++ replacement ++ replacement) ++ replacement ++ [97%N].
 Proof. vm_compute. reflexivity. Qed.
 
 Example auto_utf16le_example :
